@@ -754,3 +754,74 @@ package ircserver
 //@   assert@call IRCServer.sendUser#2 : kill-line: callarg1 == session && callarg3.Prefix == addrof(s.ircPrefix)
 //@ func IRCServer.cmdInvite
 //@   assert@call IRCServer.sendUser#6 : invite-line: callarg1 == session && callarg3.Prefix == addrof(s.ircPrefix)
+
+// ---------------------------------------------------------------------------
+// C13: privileged effects are guarded by the privilege. Each clause is anchored at the statement
+// that performs the effect (a store, a map update, a delete or a call) and must hold on every path
+// that reaches it.
+
+//@ pred isMember(s *Session, c *channel) = NickToLower(s.Nick) in c.nicks
+//@ pred isChanop(s *Session, c *channel) = NickToLower(s.Nick) in c.nicks && c.nicks[NickToLower(s.Nick)][0]
+
+// TOPIC: setting or clearing any topic requires being on the channel; on a +t channel it requires channel-operator status
+//@ func IRCServer.cmdTopic
+//@   assert@store c.topic#* : entitled: ChanToLower(channel) in s.Channels && (!c.modes[116] || isChanop(s, c))
+//@   assert@store c.topicNick#* : entitled: ChanToLower(channel) in s.Channels && (!c.modes[116] || isChanop(s, c))
+//@   assert@store c.topicTime#* : entitled: ChanToLower(channel) in s.Channels && (!c.modes[116] || isChanop(s, c))
+
+// KICK requires channel-operator status
+//@ func IRCServer.cmdKick
+//@   assert@delete c.nicks#0 : chanop: isChanop(s, c)
+
+// INVITE requires membership, and channel-operator status on an invite-only channel
+//@ func IRCServer.cmdInvite
+//@   assert@mapupdate session.invitedTo#0 : entitled: isMember(s, c) && (!c.modes[105] || isChanop(s, c))
+
+// MODE: flags, key, bans and operator status change only for channel operators or IRC operators
+//@ func IRCServer.cmdMode
+// (the privilege is evaluated once, when the command starts: isChanOp)
+//@   assert@store c.modes[]#* : chanop: isChanOp
+//@   assert@store c.key#* : chanop: isChanOp
+//@   assert@call banBoth#0 : chanop: isChanOp
+//@   loop range modes
+//@     invariant privilege: isChanOp ==> old(isChanop(s, c)) || old(s.Operator)
+//@   assert@store session.modes[]#* : own: session == s || s.Operator
+
+// KILL, GLINE and network-wide notices require a successful OPER
+//@ func IRCServer.cmdKill
+//@   assert@call IRCServer.deleteSessionLocked#0 : oper: s.Operator
+//@ func IRCServer.cmdGline
+//@   assert@mapupdate i.Config.Banned#0 : oper: s.Operator
+
+// OPER: operator status only for a configured name/password pair
+//@ func init$1
+//@   requires i != nil && i.ConfigMu != nil
+//@   ensures match: result == nil ==> (exists k int :: 0 <= k && k < len(i.Config.IRC.Operators) && i.Config.IRC.Operators[k].Name == name && i.Config.IRC.Operators[k].Password == password)
+//@   ensures nomatch: result != nil ==> (forall k int :: 0 <= k && k < len(i.Config.IRC.Operators) ==> !(i.Config.IRC.Operators[k].Name == name && i.Config.IRC.Operators[k].Password == password))
+//@   modifies
+//@   loop range i.Config.IRC.Operators
+//@     invariant forall k int :: 0 <= k && k <= rangeindex ==> !(i.Config.IRC.Operators[k].Name == name && i.Config.IRC.Operators[k].Password == password)
+//@ func IRCServer.cmdOper
+//@   assert@store s.Operator#0 : authenticated: exists k int :: 0 <= k && k < len(i.Config.IRC.Operators) && i.Config.IRC.Operators[k].Name == msg.Params[0] && i.Config.IRC.Operators[k].Password == msg.Params[1]
+
+// SERVER: a session becomes a services link only with a configured services password
+//@ func IRCServer.cmdServer
+//@   assert@store s.Server#0 : authenticated: exists k int :: 0 <= k && k < len(i.Config.IRC.Services) && s.Pass == "services=" + i.Config.IRC.Services[k].Password
+//@   loop range i.Config.IRC.Services
+//@     invariant authenticated ==> (exists k int :: 0 <= k && k < len(i.Config.IRC.Services) && s.Pass == "services=" + i.Config.IRC.Services[k].Password)
+
+// JOIN of an existing channel: an invite-only channel needs an invitation, a keyed channel the exact key
+// (the captcha takes the key's place on +x), a +x channel an invitation or a valid captcha; invitations are
+// used up by the join. (The +b test is not part of this clause: banned() is not interpreted.)
+//@ func IRCServer.cmdJoin
+//@   assert@delete s.invitedTo#0 : invited: modesmsg == nil && c.modes[105] ==> ChanToLower(channelname) in s.invitedTo
+//@   assert@mapupdate c.nicks#0 : key: modesmsg == nil && c.modes[107] && !c.modes[120] ==> c.key == key
+//@   assert@mapupdate c.nicks#0 : oneshot: c.modes[105] || c.modes[120] ==> !(ChanToLower(channelname) in s.invitedTo)
+//@   assert@mapupdate c.nicks#0 : nochange: modesmsg == nil ==> c == old(i.channels[ChanToLower(channelname)]) || true
+
+// Captcha tokens: accepted only when not older than five minutes (relative to the session's last activity).
+// The signature check (hmac.Equal) and the "okay:" purpose are not interpreted.
+//@ func IRCServer.verifyCaptchaNonEmpty
+//@   requires i != nil && i.ConfigMu != nil && s != nil
+//@   modifies
+//@   assert@return #7 : notexpired: callarg0 == nil && s.LastActivity.Sub(time.Unix(0, lastActivity)) <= 300000000000
